@@ -111,19 +111,26 @@ def addAll (y : Syms) : List Stmt → Syms
   | s :: rest => addAll (y.add s) rest
 
 theorem compileStmts_ok (y : Syms) (l : List Stmt) (h : allResolve y l = true) :
-    compileStmts y l = ⟨codeOf l, addAll y l, fnsOf l, .ok⟩ := by
+    compileStmts y l = some ⟨codeOf l, addAll y l, fnsOf l⟩ := by
   induction l generalizing y with
   | nil => simp [compileStmts, codeOf, addAll, fnsOf]
   | cons s rest ih =>
     simp only [allResolve, Bool.and_eq_true] at h
     have := ih (y.add s) h.2
-    simp only [compileStmts, h.1, ↓reduceIte, this, codeOf, addAll, fnsOf, List.map_cons, List.flatten_cons]
+    simp only [compileStmts, h.1, ↓reduceIte, this, Option.map_some, codeOf, addAll, fnsOf, List.map_cons,
+      List.flatten_cons]
 
-theorem compileStmts_rejected_first (y : Syms) (s : Stmt) (rest : List Stmt)
-    (h : s.resolves y = false) :
-    compileStmts y (s :: rest) =
-      ⟨List.replicate s.pre (.push 0) ++ (if s.junk then [.push 0, .pop] else []), y, [], .rejected s.inFn⟩ := by
-  simp [compileStmts, h]
+/-- a piece with a statement that does not compile — wherever in the piece, whatever was emitted or
+    declared before it, inside a function body or not — is rolled back as a whole -/
+theorem compileStmts_rejected (y : Syms) (l : List Stmt) (h : allResolve y l = false) :
+    compileStmts y l = none := by
+  induction l generalizing y with
+  | nil => simp [allResolve] at h
+  | cons s rest ih =>
+    by_cases hs : s.resolves y = true
+    · simp only [allResolve, hs, Bool.true_and] at h
+      simp only [compileStmts, hs, ↓reduceIte, ih (y.add s) h, Option.map_none]
+    · simp only [compileStmts, hs, Bool.false_eq_true, ↓reduceIte]
 
 theorem add_nodecl (y : Syms) (s : Stmt) (h : (s.vdecl.isEmpty && s.cdecl.isEmpty) = true) :
     y.add s = y := by
@@ -166,11 +173,10 @@ theorem specExec_ok_iff (y : Syms) (tr : List (Nat × Bool)) (v : Nat) (l : List
       exact ih _ _ _
 
 /-- what running the code of an accepted piece does, next to the Spec's execution of the same
-    statements: same trace, same verdict; one value on top of the old stack if it completes,
-    the failing statement's leak if it does not -/
+    statements: same trace, same verdict; one value on top of the stack the run started on if it
+    completes, the failing statement's leak if it does not -/
 theorem exec_codeOf (old : List Nat) (y : Syms) (l : List Stmt) (hne : l ≠ []) (stk : List Nat)
     (tr : List (Nat × Bool)) (v : Nat)
-    (hfit : ∀ s ∈ l, stk.length + s.need + 1 ≤ cap)
     (hfresh : ∀ s ∈ l, s.calls.any old.contains = false) :
     let x := execFrom old (codeOf l) stk tr
     let sp := specExec y tr v l
@@ -180,25 +186,21 @@ theorem exec_codeOf (old : List Nat) (y : Syms) (l : List Stmt) (hne : l ≠ [])
   induction l generalizing y tr v with
   | nil => exact absurd rfl hne
   | cons s rest ih =>
-    have hs := hfit s (List.mem_cons_self ..)
     have hc := hfresh s (List.mem_cons_self ..)
-    have h1 : ¬ (stk.length + s.need > cap) := by omega
-    have h2 : ¬ (stk.length ≥ cap) := by omega
     by_cases hf : s.fails = true
     · simp [codeOf, frag, hf, execFrom, specExec, leakOf]
     · have hf' : s.fails = false := by simpa using hf
       cases rest with
       | nil =>
         cases he : s.isExpr <;> cases hlv : s.leaves <;>
-          simp [codeOf, frag, sep, hf', execFrom, specExec, hlv, he, h1, h2, hc, Stmt.lv, leakOf]
+          simp [codeOf, frag, sep, hf', execFrom, specExec, hlv, he, hc, Stmt.lv, leakOf]
       | cons t rest' =>
         have ih' := ih (y.add s) (by simp) (tr ++ [(s.id, false)]) (if s.isExpr then s.id else 0)
-          (fun u hu => hfit u (List.mem_cons_of_mem _ hu))
           (fun u hu => hfresh u (List.mem_cons_of_mem _ hu))
         have hx : execFrom old (codeOf (s :: t :: rest')) stk tr
             = execFrom old (codeOf (t :: rest')) stk (tr ++ [(s.id, false)]) := by
           cases he : s.isExpr <;> cases hlv : s.leaves <;>
-            simp [codeOf, frag, sep, hf', execFrom, hlv, he, h1, h2, hc, Stmt.lv]
+            simp [codeOf, frag, sep, hf', execFrom, hlv, he, hc, Stmt.lv]
         have hsp : specExec y tr v (s :: t :: rest')
             = specExec (y.add s) (tr ++ [(s.id, false)]) (if s.isExpr then s.id else 0) (t :: rest') := by
           simp [specExec, hf']
@@ -273,7 +275,6 @@ structure Inv (r : Repl) (st : SpecSt) (g : GSt) : Prop where
   gsyms : g.syms = st.syms
   trace : r.vm.trace = st.trace
   ip    : r.vm.ip = r.comp.code.length
-  stuck : r.comp.stuck = false
   ht    : r.vm.stack.length = g.ht
   old   : r.vm.old = g.fns
   fns   : r.comp.fns = g.fns
@@ -288,20 +289,18 @@ theorem feed_step (r : Repl) (st : SpecSt) (g : GSt) (p : Piece) (inv : Inv r st
     · -- accepted by the compiler
       have hres' : allResolve g.syms l = true := by rw [inv.gsyms]; exact hres
       simp only [pieceGuard, hres', ↓reduceIte, Bool.and_eq_true, List.all_eq_true,
-        decide_eq_true_eq, Bool.not_eq_eq_eq_not, Bool.not_true] at hg
+        Bool.not_eq_eq_eq_not, Bool.not_true] at hg
       obtain ⟨⟨hall, hdecl⟩, hne⟩ := hg
       have hne' : l ≠ [] := by
         intro h; subst h; simp at hne
       have hc := compileStmts_ok r.comp.syms l (by rw [inv.syms]; exact hres)
-      have hx := exec_codeOf r.vm.old st.syms l hne' r.vm.stack st.trace 0
-        (fun s hs => by have := (hall s hs).1; rw [inv.ht]; exact this)
-        (fun s hs => by have := (hall s hs).2; rw [inv.old]; exact this)
+      have hx := exec_codeOf r.vm.old st.syms l hne' [] st.trace 0
+        (fun s hs => by have := hall s hs; rw [inv.old]; exact this)
       have hdrop : (r.comp.code ++ codeOf l).drop r.vm.ip = codeOf l := by
         rw [inv.ip]; simp
       have hsy := specExec_syms st.syms st.trace 0 l hdecl
       have hok := specExec_ok_iff st.syms st.trace 0 l
-      simp only [Repl.feed, hc, inv.stuck, Bool.false_eq_true, ↓reduceIte, hdrop, SpecSt.feed, hres,
-        GSt.next, hres']
+      simp only [Repl.feed, hc, hdrop, SpecSt.feed, hres, ↓reduceIte, GSt.next, hres']
       rw [← inv.trace] at hx
       obtain ⟨htr, hok2, hst1, hst2⟩ := hx
       rw [inv.trace] at htr hok2 hst1 hst2
@@ -315,40 +314,32 @@ theorem feed_step (r : Repl) (st : SpecSt) (g : GSt) (p : Piece) (inv : Inv r st
           rw [inv.syms, hsy]
         · show (specExec g.syms [] 0 l).syms = _
           rw [inv.gsyms, specExec_syms _ _ _ _ hdecl, hsy]
-        · show (execFrom r.vm.old (codeOf l) r.vm.stack r.vm.trace).trace = _
+        · show (execFrom r.vm.old (codeOf l) [] r.vm.trace).trace = _
           rw [inv.trace]; exact htr
         · simp
-        · simp
-        · show (execFrom r.vm.old (codeOf l) r.vm.stack r.vm.trace).stack.length = _
+        · show (execFrom r.vm.old (codeOf l) [] r.vm.trace).stack.length = _
           rw [inv.trace]
           cases hk : (specExec st.syms st.trace 0 l).ok
           · obtain ⟨k, hk1, hk2⟩ := hst2 hk
             rw [hk2, hk1]
-            simp [inv.ht]; omega
+            simp
           · rw [hst1 hk]
             have : leakOf l = none := by
               rw [hk] at hok
               cases hl : leakOf l <;> simp [hl] at hok ⊢
             rw [this]
-            simp [inv.ht]
+            simp
         · show r.comp.fns ++ fnsOf l = _
           rw [inv.fns]
         · show r.comp.fns ++ fnsOf l = _
           rw [inv.fns]
-    · -- rejected by the compiler: at the first statement, before anything was emitted
+    · -- rejected by the compiler, at any statement: Compile rolled everything back
       have hres' : allResolve g.syms l = false := by
         rw [inv.gsyms]; simpa using hres
       have hresf : allResolve st.syms l = false := by simpa using hres
-      cases l with
-      | nil => simp [allResolve] at hres
-      | cons s rest =>
-        simp only [pieceGuard, hres', Bool.false_eq_true, ↓reduceIte, Bool.and_eq_true,
-          Bool.not_eq_true', beq_iff_eq] at hg
-        obtain ⟨⟨⟨hs, hpre⟩, hfn⟩, hjunk⟩ := hg
-        have hc := compileStmts_rejected_first r.comp.syms s rest (by rw [inv.syms, ← inv.gsyms]; exact hs)
-        simp only [Repl.feed, hc, hpre, hfn, hjunk, List.replicate_zero, List.append_nil, inv.stuck,
-          Bool.false_eq_true, ↓reduceIte, SpecSt.feed, hresf, GSt.next, hres']
-        exact ⟨trivial, ⟨inv.syms, inv.gsyms, inv.trace, inv.ip, by simp, inv.ht, inv.old, inv.fns⟩⟩
+      have hc := compileStmts_rejected r.comp.syms l (by rw [inv.syms]; exact hresf)
+      simp only [Repl.feed, hc, SpecSt.feed, hresf, Bool.false_eq_true, ↓reduceIte, GSt.next, hres']
+      exact ⟨trivial, inv⟩
 
 /-- the guard's bookkeeping after a history -/
 def GSt.after (g : GSt) : List Piece → GSt
@@ -463,25 +454,32 @@ theorem spec_run_defined_mono (h : List Piece) : ∀ (st : SpecSt) (n : Nat),
     simp only [SpecSt.run]
     exact ih _ _ (spec_feed_defined_mono st p n hd)
 
-theorem compileStmts_defined_mono (l : List Stmt) : ∀ (y : Syms) (n : Nat),
-    y.defined n = true → (compileStmts y l).syms.defined n = true := by
+theorem compileStmts_defined_mono (l : List Stmt) : ∀ (y : Syms) (n : Nat) (o : COut),
+    y.defined n = true → compileStmts y l = some o → o.syms.defined n = true := by
   induction l with
-  | nil => intro y n h; exact h
+  | nil =>
+    intro y n o h ho
+    simp only [compileStmts, Option.some.injEq] at ho
+    subst ho; exact h
   | cons s rest ih =>
-    intro y n h
+    intro y n o h ho
     by_cases hr : s.resolves y = true
-    · simp only [compileStmts, hr, ↓reduceIte]
-      exact ih _ _ (add_defined_mono y s n h)
-    · simp only [compileStmts, hr, Bool.false_eq_true, ↓reduceIte]; exact h
+    · simp only [compileStmts, hr, ↓reduceIte, Option.map_eq_some_iff] at ho
+      obtain ⟨r, hr1, hr2⟩ := ho
+      subst hr2
+      exact ih _ _ r (add_defined_mono y s n h) hr1
+    · simp [compileStmts, hr] at ho
 
 theorem repl_feed_defined_mono (r : Repl) (p : Piece) (n : Nat) (h : r.comp.syms.defined n = true) :
     (r.feed p).1.comp.syms.defined n = true := by
   cases p with
   | bad => exact h
   | stmts l =>
-    have hc := compileStmts_defined_mono l r.comp.syms n h
     simp only [Repl.feed]
-    split <;> exact hc
+    split
+    · exact h
+    · rename_i o ho
+      exact compileStmts_defined_mono l r.comp.syms n o h ho
 
 theorem repl_run_defined_mono (h : List Piece) : ∀ (r : Repl) (n : Nat),
     r.comp.syms.defined n = true → (r.run h).1.comp.syms.defined n = true := by
@@ -500,39 +498,39 @@ def marksOf : List CEv → List Mark
   | .enter m :: rest => m :: marksOf rest
   | _ :: rest => marksOf rest
 
-theorem compileEvs_own_nil (inh : List Mark) (evs : List CEv) :
-    ∀ own, balancedFrom own.length evs = true → errClean own evs = true →
-      (compileEvs inh own evs).own = [] := by
+theorem compileEvsR_own_nil (R : Mark → Bool) (inh : List Mark) (evs : List CEv) :
+    ∀ own, balancedFrom own.length evs = true → errClean R own evs = true →
+      (compileEvsR R inh own evs).own = [] := by
   induction evs with
   | nil =>
     intro own hb _
     simp only [balancedFrom, beq_iff_eq] at hb
-    simp only [compileEvs]
+    simp only [compileEvsR]
     exact List.eq_nil_of_length_eq_zero hb
   | cons ev rest ih =>
     intro own hb hc
     cases ev with
     | enter m =>
-      simp only [compileEvs]
+      simp only [compileEvsR]
       exact ih (m :: own) (by simpa [balancedFrom] using hb) (by simpa [errClean] using hc)
     | leave =>
-      simp only [compileEvs]
+      simp only [compileEvsR]
       simp only [balancedFrom, Bool.and_eq_true, decide_eq_true_eq] at hb
       apply ih own.tail
       · rw [List.length_tail]; exact hb.2
       · simpa [errClean] using hc
     | emit k sens =>
-      simp only [compileEvs]
+      simp only [compileEvsR]
       exact ih own (by simpa [balancedFrom] using hb) (by simpa [errClean] using hc)
     | err =>
-      simp only [compileEvs]
+      simp only [compileEvsR]
       simp only [errClean, List.all_eq_true] at hc
       rw [List.filter_eq_nil_iff]
       intro m hm
       simp [hc m hm]
 
-theorem errClean_of_restored (evs : List CEv) :
-    ∀ own, (∀ m ∈ own, m.restored = true) → (∀ m ∈ marksOf evs, m.restored = true) → errClean own evs = true := by
+theorem errClean_of_restored (R : Mark → Bool) (evs : List CEv) :
+    ∀ own, (∀ m ∈ own, R m = true) → (∀ m ∈ marksOf evs, R m = true) → errClean R own evs = true := by
   induction evs with
   | nil => intro _ _ _; rfl
   | cons ev rest ih =>
@@ -555,6 +553,44 @@ theorem errClean_of_restored (evs : List CEv) :
     | err =>
       simp only [errClean, List.all_eq_true]
       exact ho
+
+/-- the table of the code as it is restores EVERY compile-only mark on the error path -/
+theorem restored_all (m : Mark) : m.restored = true := by cases m <;> decide
+
+/-- … so the side condition "the error surfaces where every mark set is a restored one" holds for every
+    event sequence -/
+theorem errClean_restored (evs : List CEv) (own : List Mark) : errClean Mark.restored own evs = true :=
+  errClean_of_restored Mark.restored evs own (fun m _ => restored_all m) (fun m _ => restored_all m)
+
+/-- a history compiled under any table whose error paths are clean equals the fresh-compiler Spec of
+    that table -/
+theorem marksRunR_eq (R : Mark → Bool) (h : List (List CEv))
+    (hg : ∀ evs ∈ h, balancedFrom 0 evs = true ∧ errClean R [] evs = true) :
+    marksRunR R [] h = h.map (compileEvsR R [] []) := by
+  induction h with
+  | nil => rfl
+  | cons evs rest ih =>
+    have h1 := hg evs (List.mem_cons_self ..)
+    have hown := compileEvsR_own_nil R [] evs [] h1.1 h1.2
+    simp only [marksRunR, List.map_cons, hown, List.append_nil]
+    rw [ih (fun e he => hg e (List.mem_cons_of_mem _ he))]
+
+/-- what a piece emits and whether it is accepted does not depend on the restore table when nothing is
+    inherited (the table only decides what is LEFT SET after an error) -/
+theorem compileEvsR_code_indep (R R' : Mark → Bool) (evs : List CEv) : ∀ own,
+    (compileEvsR R [] own evs).code = (compileEvsR R' [] own evs).code ∧
+    (compileEvsR R [] own evs).ok = (compileEvsR R' [] own evs).ok := by
+  induction evs with
+  | nil => intro own; exact ⟨rfl, rfl⟩
+  | cons ev rest ih =>
+    intro own
+    cases ev with
+    | enter m => simp only [compileEvsR]; exact ih _
+    | leave => simp only [compileEvsR]; exact ih _
+    | emit k sens =>
+      simp only [compileEvsR]
+      exact ⟨by rw [(ih own).1], (ih own).2⟩
+    | err => simp only [compileEvsR]; exact ⟨trivial, trivial⟩
 
 /-! ## Layer 4: generations -/
 
